@@ -50,6 +50,7 @@ STD_ENUMS = {
     'ControlFlow': ['Continue', 'Break'],
     'Ordering': ['Less', 'Equal', 'Greater'],        # discriminants -1,0,1 handled specially
     'Shutdown': ['Read', 'Write', 'Both'],
+    'TryRecvError': ['Empty', 'Disconnected'],
     'SocketAddr': ['V4', 'V6'],
     'IpAddr': ['V4', 'V6'],
     'AtomicOrdering': ['Relaxed', 'Release', 'Acquire', 'AcqRel', 'SeqCst'],
